@@ -18,6 +18,18 @@ CLAIMED = {
  'C18': ("proptest over date-times x offsets (full i32) + enumeration of 16k offsets, checked by an independent strict reader of the text form (round trip text -> fields/offset)",
          "Exploration: every offset in -7200..=7200 and 8000 offsets around +-100 h, +-1000 h and the i32 extremes on 4 base date-times (both constructors), plus a proptest mixture of years (full i32), seconds 0..60, nanoseconds and offsets; the rendered text must match the documented shape exactly and read back to the same fields, nanoseconds and offset.",
          "The strict reader is the specification of the shape (written from the property text).", "DESIGN.md §5 C18"),
+ 'C04': ("proptest over constructor-accepted rules (ties and year-long periods constructed; class histogram measured) + notation sweep (thorough: all 1151^2 pairs), each probed at start/end/New-Year instants +- deltas over 12 years + i32-extreme years, against a period model whose order is decided on a full 400-year cycle",
+         "Exploration: accepted, interleaving rules of every class (start-first, end-first, all-tie, mixed-tie both orders) are evaluated at ~600 boundary instants each and the returned type (offset, flag, designation) must equal the half the period model prescribes; year-guard refusals at the i32 extremes are asserted. Day-notation pairs complete in thorough; times, offsets, years sampled.",
+         "Trusts O-cal/O-rule; classification over one 400-year cycle; overlapping rules are outside the property's quantifier and only counted.", "DESIGN.md §5 C04"),
+ 'C11': ("complete enumeration of the stated finite quotient (1151^2 day pairs x all d classes) against a brute-force 400-year oracle; proptest for off-lattice arguments; window-edge enumeration",
+         "Exploration, exhaustive for the stated quotient: every (start, end) notation pair x every d = k*86400+e within the windows is decided by the constructor and by a brute-force evaluation of the three comparisons over a full 400-year cycle; each d is realised through random time/offset splits. Plus offset/time window edges (specific errors) and day-constructor bounds.",
+         "Tie-tolerant reading of 'never change sign' (pinned by the crate's own unit test); dependence on times/offsets only through d is itself sampled via random splits.", "DESIGN.md §5 C11"),
+ 'C12': ("proptest over valid leap tables x probe zones (transition at/around every record) against a sequential leap model; forward switch instant and search-reported instant compared (differential between the crate's two conversion routines and the model)",
+         "Exploration: for generated leap tables (positive/negative/mixed, minimal spacing, real table) a probe zone with one transition at count T reveals both private conversions; forward switch = model u_T, monotone over a +-10 s window, the gap reported by the search is exactly at the forward switch, adjoining local times resolve to single instants.",
+         "O-leap model written from the property text; conversions observed through the public API only.", "DESIGN.md §5 C12"),
+ 'C13': ("proptest: valid-by-construction zones + exactly one of 10 defect classes, random multi-defect tuples, leap-spacing enumeration up to i64::MAX, byte-exhaustive designation enumeration; validity-predicate oracle; owned vs borrowed differential",
+         "Exploration: generated valid zones must be accepted by both constructors and give back their parts; each single defect must be refused with its specific error; multi-defect tuples must be refused with one of the violated clauses' errors; both constructors always agree. LocalTimeType::new: every byte at every position for lengths 3..7, lengths 0..10, offset i32::MIN.",
+         "Validity predicate transcribed from the property; three unspecified corners (rule cannot be evaluated at the last transition) carry no Ok/Err claim.", "DESIGN.md §5 C13"),
 }
 
 def entry(pid):
